@@ -74,13 +74,16 @@ DotAt(t) == FindFrom(t, <<DOT>>, 1)
 FloatShape(t, signed) == LET m == Mag(t) d == DotAt(m) IN
   (IsNeg(t) => signed) /\ d > 1 /\ d < Len(m) /\ AllDigits(Take(m, d - 1)) /\ AllDigits(Drop(m, d))
 \* texts t with repr(float(t)) = t: positional, no superfluous zeros, <= 15 significant digits, not below 1e-4
-FloatCanon(t, signed) ==
+FloatCanonN(t, signed, n) ==
   FloatShape(t, signed) /\
   LET m == Mag(t) d == DotAt(m) ip == Take(m, d - 1) fp == Drop(m, d) IN
   /\ (Len(ip) = 1 \/ ip[1] # ZERO)
   /\ (Len(fp) = 1 \/ fp[Len(fp)] # ZERO)
-  /\ Len(ip) + Len(fp) <= 15
+  /\ Len(ip) + Len(fp) <= n
   /\ ~(ip = <<ZERO>> /\ Len(fp) >= 5 /\ \A i \in 1..4 : fp[i] = ZERO)
+FloatCanon(t, signed) == FloatCanonN(t, signed, 15)
+\* a float VALUE of a call is recorded as its repr(): up to 17 significant digits ("0." + 17 digits = 18), positional
+FloatValueOK(t, signed) == FloatCanonN(t, signed, 18)
 
 IsLowerHex(c) == IsDigit(c) \/ (c >= 97 /\ c <= 102)
 LowerC(c) == IF c >= 65 /\ c <= 90 THEN c + 32 ELSE c
@@ -116,7 +119,7 @@ Accepts(conv, val) ==
     [] conv.k = "path"   -> val.ty = "str" /\ AllScalar(val.v) /\ Len(val.v) >= 1 /\ val.v[1] # SLASH /\ val.v[Len(val.v)] # SLASH
     [] conv.k = "any"    -> val.ty = "str" /\ val.v \in ItemSet(conv) /\ AllScalar(val.v) /\ NoSlash(val.v) /\ Len(val.v) >= 1
     [] conv.k = "int"    -> val.ty = "int" /\ IntCanon(val.v, conv.signed) /\ (conv.a = 0 \/ Len(val.v) <= conv.a) /\ IntRange(conv, val.v).ok
-    [] conv.k = "float"  -> val.ty = "float" /\ FloatCanon(val.v, conv.signed) /\ FloatRange(conv, val.v).ok
+    [] conv.k = "float"  -> val.ty = "float" /\ FloatValueOK(val.v, conv.signed) /\ FloatRange(conv, val.v).ok
     [] conv.k = "uuid"   -> val.ty = "uuid" /\ UuidCanon(val.v)
     [] OTHER -> FALSE
 
